@@ -10,9 +10,9 @@ from fractions import Fraction
 from harness import core, tlc, trace
 
 DIRS = ["timing"]
-Q = 768            # positions per beat
-TICK = 16
-U = 8192           # smooth time unit: 1/8192 s
+Q = 26880          # positions per beat (768 * 5 * 7: rows per measure of 5, 7, 10 ... stay integral)
+TICK = Q // 48
+U = 8192 * 35      # smooth time unit: 1/286720 s (one q at 640 BPM)
 SMOOTH_BPM = {40: 16, 80: 8, 160: 4, 320: 2, 640: 1}      # bpm -> duration of one q in U
 TAGS = list(range(7))
 
@@ -190,7 +190,7 @@ def corpus_tds():
 def probe_positions(td, rng, extra=6):
     ps = set()
     for p in td.event_positions():
-        ps |= {p - TICK, p - 8, p, p + 4, p + 8, p + TICK}
+        ps |= {p - TICK, p - TICK // 2, p, p + TICK // 4, p + TICK // 2, p + TICK}
     mx = max(td.event_positions())
     ps |= {-Q, -TICK, mx + Q, mx + 5 * TICK}
     for _ in range(extra):
@@ -330,7 +330,7 @@ def record(td, rng, kinds, rid, notes_text=None, max_probes=60):
             if hi - lo > 2 ** 29:
                 lo, hi = 0, 0
             for _ in range(40):
-                tu = rng.randint(lo - 2000, hi + 2000)
+                tu = 35 * rng.randint(lo // 35 - 60, hi // 35 + 60)        # multiples of 1/8192 s: exact floats
                 t = float(Fraction(tu, U) - Fraction(Decimal(td.offset)))
                 for tag in (0, None):
                     r = safe(lambda: ask(t, tag))
